@@ -41,6 +41,8 @@ TECHNIQUE = "fault enumeration over change positions and failing customisation c
 #: thorough tier: seed-dependent tasks are repeated under this many derived seeds (run.py); the listed task functions enumerate fixed domains
 THOROUGH_REPS = 5
 DETERMINISTIC_FNS = ('t_faults', 't_faulty', 't_custom')
+RULE += " The generator also yields the global settings vary_rounds / truncate_error in both spellings, vary_rounds values on the float/int boundary of the INI renderer and beyond two decimals, a context-keyword scheme (user=), a custom unregistered hasher at every position, and edits of the dictionary returned by to_dict()."
+ASSUMPTIONS = [('generated category names are lower case; the one directed upper-case category case is the recorded open finding (INI option names are case-folded)' if a.startswith('INI export renders floats with') or 'INI export renders floats with' in a else a) for a in ASSUMPTIONS]
 
 CATS = [None, "admin", "staff", "guest"]
 
